@@ -592,7 +592,8 @@ class Loops:
                 d = z3.And(*(delta(s) + [at(new.term, ln(oldt) + k) == val]))
                 cs = created(s)
                 alts.append(z3.Exists(cs, d) if cs else d)
-            if any(self._und(normal_paths[idx][0]) for idx, _c in contribs):
+            # exact statement: iteration k took one of the paths, with *some* values of the path-local constants
+            if any(created(normal_paths[idx][0]) for idx, _c in contribs) or any(self._und(normal_paths[idx][0]) for idx, _c in contribs):
                 ft.assume(z3.ForAll([k], z3.Implies(z3.And(0 <= k, k < n), z3.Or(*alts)), patterns=[at(new.term, ln(oldt) + k)]))
         else:
             # (1) every new position holds an element contributed by some iteration
